@@ -4,6 +4,7 @@ import (
 	"fmt"
 	"go/token"
 	"go/types"
+	"strings"
 
 	"golang.org/x/tools/go/ssa"
 )
@@ -257,11 +258,44 @@ func (e *Engine) step(f *frame, stp **State, b *ssa.BasicBlock, ins []guarded, i
 				}
 			}
 		}
+		okT := ""
 		if res == nil {
-			res = e.symbolic(st, x.AssertedType, "tassert")
+			// asserting one and the same interface value to one and the same type gives one and the same answer
+			if ov, isO := v.(OpaqueV); isO {
+				key := ov.T + "/" + x.AssertedType.String()
+				if e.tasserts == nil {
+					e.tasserts = map[string]TupleV{}
+				}
+				if c, seen := e.tasserts[key]; seen {
+					res, okT = c[0], c[1].(BoolV).T
+				} else {
+					res = e.symbolic(st, x.AssertedType, "tassert")
+					okT = e.fresh("taok", "Bool")
+					_, isIface := x.AssertedType.Underlying().(*types.Interface)
+					concrete := "true"
+					if isIface {
+						concrete = "false"
+					}
+					e.tasserts[key] = TupleV{res, BoolV{okT}, BoolV{concrete}}
+					// a value has one dynamic type: assertions to two different concrete types cannot both succeed
+					if !isIface {
+						pre := ov.T + "/"
+						for k2, c2 := range e.tasserts {
+							if k2 != key && strings.HasPrefix(k2, pre) && c2[2].(BoolV).T == "true" {
+								e.fact(not(and(c2[1].(BoolV).T, okT)))
+							}
+						}
+					}
+				}
+			} else {
+				res = e.symbolic(st, x.AssertedType, "tassert")
+			}
+		}
+		if okT == "" {
+			okT = e.fresh("taok", "Bool")
 		}
 		if x.CommaOk {
-			f.env[x] = TupleV{res, BoolV{e.fresh("taok", "Bool")}}
+			f.env[x] = TupleV{res, BoolV{okT}}
 		} else {
 			f.env[x] = res
 		}
